@@ -107,7 +107,23 @@ fn ledgers_part(ctx: &mut Ctx) {
     let ex_wide = run_impl::wide_exemptions();
     let ex_emb = run_impl::embedded_exemptions();
     for (name, l0) in cases {
-        let l = shift(&l0, &mut r);
+        let mut l = shift(&l0, &mut r);
+        // one ledger in three also has a security sold in tax years that do not follow one another
+        // (whole tax years without any disposal between years with disposals)
+        if r.chance(1, 3) && !l.is_empty() {
+            use rust_decimal::Decimal;
+            let first = l.iter().map(|t| t.date).min().expect("non-empty");
+            let last = l.iter().map(|t| t.date).max().expect("non-empty");
+            if last.year() < 2080 && first.year() > 1905 {
+                l.push(GTx::new(first - Duration::days(r.range(1, 900)), "GAPPY", Kind::Buy, Decimal::from(100), Decimal::ONE, Decimal::ZERO));
+                let mut at = last;
+                for _ in 0..(2 + r.below(3)) {
+                    at = at + Duration::days(*r.pick(&[20i64, 400, 750, 1100, 1500]));
+                    l.push(GTx::new(at, "GAPPY", Kind::Sell, Decimal::from(1 + r.below(9) as i64), Decimal::TWO, Decimal::ZERO));
+                }
+                if r.chance(1, 2) { r.shuffle(&mut l); }
+            }
+        }
         let ex = if r.chance(1, 3) { &ex_emb } else { &ex_wide };
         ctx.ev.evaluations += 1;
         let all_raw = run_impl::impl_calc_raw(&l, None, ex);
@@ -193,7 +209,7 @@ fn ledgers_part(ctx: &mut Ctx) {
 }
 
 pub fn run(ctx: &mut Ctx) {
-    ctx.ev.rule = "part 1: dates 1899-01-01..2101-12-31 (quick: every date within ±5 days of 6 April, month/leap/year ends, plus every 11th other date; thorough: every date, exhaustive): TaxPeriod::from_date vs the 6-April rule, and chrono ordinal/validity/tax year vs the model. part 2: generated ledgers (some shifted to 1899/1900/2100/2101) × year filters {each year with disposals, a random year, one of 1899,1900,2100,2101,0,-1,65535,65536,70000,±300000}: filtered report == slice of the all-years report, holdings equal, impl == model. Non-trivial = boundary date, or ledger with ≥ 2 tax years.".into();
+    ctx.ev.rule = "part 1: dates 1899-01-01..2101-12-31 (quick: every date within ±5 days of 6 April, month/leap/year ends, plus every 11th other date; thorough: every date, exhaustive): TaxPeriod::from_date vs the 6-April rule, and chrono ordinal/validity/tax year vs the model. part 2: generated ledgers (some shifted to 1899/1900/2100/2101; one in three with a security sold in tax years separated by whole years without disposals) × year filters {each year with disposals, a random year, one of 1899,1900,2100,2101,0,-1,65535,65536,70000,±300000}: filtered report == slice of the all-years report, holdings equal, impl == model. Non-trivial = boundary date, or ledger with ≥ 2 tax years.".into();
     dates_part(ctx);
     ledgers_part(ctx);
 }
